@@ -531,7 +531,7 @@ def dump_one(f: TextIO, data: IOData):
     print("</Molecular Orbital Primitive Coefficients>", file=f)
 
     # write energy and virial ratio; use ' NAN' when None (not available)
-    _write_xml_single_scientific(tag=lbs["energy"], info=data.energy or np.nan, file=f)
+    _write_xml_single_scientific(tag=lbs["energy"], info=np.nan if data.energy is None else data.energy, file=f)
     _write_xml_single_scientific(lbs["virial_ratio"], data.extra.get("virial_ratio", np.nan), f)
 
     # write nuclear Cartesian energy gradients (optional)
